@@ -17,7 +17,7 @@ SYMOFF = {"jmp": 1, "jcc": 2, "call": 1}
 PATCHES = ["nop", "nop\nnop", "xchg %ax, %ax", "jmp {L}", "ret", "call {L}", "jne {L}\nnop", "nop\n.Lt:\nnop\njmp .Lt", "nop\ncall {L}\nnop",
            "nop\nret\nnop", "jne {L}", ".Ls:\ndec %eax\njne .Ls", "jmp .Le\n.string \"hi\"\n.Le:\nnop", ".Lq:\nnop", "call {L}\nxchg %ax, %ax",
            "nop\n.Lm:\njne .Lm\nret"]
-CFI_PATCHES = ["pushq %rax\n.cfi_adjust_cfa_offset 8\npopq %rax\n.cfi_adjust_cfa_offset -8", ".cfi_remember_state\nnop\n.cfi_undefined 3\nnop\n.cfi_restore_state"]
+CFI_PATCHES = ["pushq %rax\n.cfi_adjust_cfa_offset 8\npopq %rax\n.cfi_adjust_cfa_offset -8", ".cfi_remember_state\nnop\n.cfi_undefined 40\nnop\n.cfi_restore_state"]
 DATA_PATCH = [b"\x01", b"\x02\x03", b"\x04\x05\x06\x07"]
 
 
@@ -25,7 +25,7 @@ class Case:
     """A module description (pure data), independent of gtirb objects, so that it can be rebuilt identically."""
 
     def __init__(self, rnd, nfun_max=2, with_data=True, with_aux=True, with_cfi=True, mods="ins,del,rep", with_funcs=True, max_mods=3,
-                 closed_tail=False, to_proxy=True, with_lead=False, with_scope=True, with_misc=True, with_ext=False, cfi_patches=False, data_first=0.12):
+                 closed_tail=False, to_proxy=True, with_lead=False, with_scope=True, with_misc=True, with_ext=False, cfi_patches=False, data_first=0.12, whole_del=0.0):
         self.rnd = rnd
         # bytes in front of the first block that belong to no block (the interval starts at 0x1000 - lead, the blocks at 0x1000)
         self.lead = rnd.choice((1, 2, 5)) if with_lead and rnd.random() < 0.12 else 0
@@ -132,10 +132,13 @@ class Case:
             for _ in range(rnd.randint(0, max_mods) if rnd.random() < 0.6 else 0):
                 t = rnd.choice(kinds)
                 p = rnd.randrange(len(bounds))
+                force_whole = "del" in kinds and whole_del and rnd.random() < whole_del
+                if force_whole:
+                    t, p = "del", 0
                 if t == "ins":
                     ln = 0
                 else:
-                    q = rnd.randint(p, len(bounds) - 1)
+                    q = len(bounds) - 1 if force_whole else rnd.randint(p, len(bounds) - 1)
                     ln = bounds[q] - bounds[p]
                     if ln == 0:
                         continue
